@@ -174,7 +174,7 @@ fn gen_invocation(rng: &mut Rng, defs: &[Def], params: usize, depth: u32, in_bod
         if rng.chance(1, 12) { return; }           // a function-like name without arguments stays as it is
         if rng.chance(1, 4) { out.push("~".into()); }
         out.push("(".into());
-        let n = if rng.chance(1, 25) { n + 1 } else { n };   // wrong count (malformed stream)
+        let n = if rng.chance(1, 25) { n + 1 } else if n > 0 && rng.chance(1, 40) { n - 1 } else { n };   // wrong count (malformed stream)
         for i in 0..n {
             if i > 0 { out.push(",".into()); sp(rng, out); }
             let len = if depth == 0 { 1 } else { rng.range(0, 2) as usize };
@@ -193,6 +193,19 @@ fn gen_define(rng: &mut Rng, name: &str, known: &[Def], cyclic: bool, all: &[Def
         w.push(")".into());
     }
     w.push("~".into());
+    // an applicator: a body of parameters and punctuation only, `p ( q )` / `p q` / `p ( q , r )` - whether its first
+    // parameter becomes an invocation is decided by the rescan of the replacement
+    if let Some(n) = params {
+        if n >= 2 && rng.chance(1, 5) {
+            w.push(PARAMS[0].into());
+            match rng.below(3) {
+                0 => { sp(rng, &mut w); w.push("(".into()); for i in 1..n { if i > 1 { w.push(",".into()); sp(rng, &mut w); } w.push(PARAMS[i].into()); } w.push(")".into()); }
+                1 => { w.push("~".into()); w.push(PARAMS[1].into()); }
+                _ => { w.push("~".into()); w.push("(".into()); w.push(PARAMS[1].into()); w.push(")".into()); w.push("~".into()); w.push(PARAMS[0].into()); }
+            }
+            return (w, Def { name: name.into(), params });
+        }
+    }
     let len = rng.range(0, 5) as usize;
     let pool: &[Def] = if cyclic { all } else { known };
     gen_seq(rng, pool, params.unwrap_or(0), len, 2, true, &mut w);
@@ -330,6 +343,8 @@ pub fn gen_cases(seed: u64, n: usize, _thorough: bool) -> Vec<String> {
         "F m ; D ~ cat(p,q) ~ p##q ; T cat(,x) ~ cat(x,) $",
         "F m ; D ~ e() ~ 5 ; T e() ~ e( ~ ) ~ e $",
         "F m ; D ~ e() ~ 5 ; T e(1) $",
+        "F m ; D ~ SQR(v) ~ ((v) ~ * ~ (v)) ; D ~ APPLY(f,x) ~ f(x) ; D ~ PAIR(p,q) ~ p ~ q ; T APPLY(SQR, ~ y) ~ PAIR(SQR, ~ (y ~ + ~ 1)) ~ PAIR(SQR, ~ y) ~ APPLY(APPLY, ~ z) $",
+        "F m ; D ~ f(p,q) ~ p ~ + ~ q ; T f(1) ~ f() ~ f(1,2,3) $",
         "F m ; D ~ f (p) ~ p ; T f(1) $",
         "F m ; D ~ A ~ 1 ; T A $ ; D ~ A ~ 2 ; T A $ ; U A ; T A $",
         "F m ; D ~ f(p) ~ p ; T f(1 $ ; T 2) $",
